@@ -242,7 +242,25 @@ func (w *Worker) sat(extra *term) string {
 	}
 	r := w.sol.check()
 	w.sol.send("(pop 1)")
+	if r == "unknown" {
+		for _, alt := range w.altSolvers() {
+			if ar, _ := w.sol.askOther(alt, txt, 60000, nil); ar != "unknown" {
+				return ar
+			}
+		}
+	}
 	return r
+}
+
+// altSolvers lists the other installed solvers to consult when the primary one gives up.
+func (w *Worker) altSolvers() []string {
+	var out []string
+	for _, b := range []string{"cvc5", "z3-new", "z3"} {
+		if b != w.cfg().SolverBin {
+			out = append(out, b)
+		}
+	}
+	return out
 }
 
 func (w *Worker) inconclusive(what string) {
@@ -514,6 +532,31 @@ func (w *Worker) model(extra *term) (map[string]interface{}, string) {
 	}
 	r := w.sol.check()
 	var m map[string]interface{}
+	if r == "unknown" {
+		var names []string
+		for _, in := range w.inputs {
+			names = append(names, smtName(in.name))
+		}
+		for _, alt := range w.altSolvers() {
+			ar, vals := w.sol.askOther(alt, txt, 60000, names)
+			if ar == "unknown" {
+				continue
+			}
+			r = ar
+			if ar == "sat" {
+				m = map[string]interface{}{}
+				if e := parseSexp(vals); e != nil {
+					for k, p := range e.list {
+						if k < len(w.inputs) && len(p.list) == 2 {
+							m[w.inputs[k].name] = sexpValue(p.list[1], w.inputs[k].s)
+						}
+					}
+				}
+			}
+			w.sol.send("(pop 1)")
+			return m, r
+		}
+	}
 	if r == "sat" {
 		m = map[string]interface{}{}
 		if len(w.inputs) > 0 {
@@ -655,12 +698,16 @@ func (w *Worker) resetPath(prefix []dec) {
 	w.timerVals = nil
 	w.lowered = nil
 	w.lowSeq = 0
+	w.sol.record = false
 	if w.pathOpen {
 		w.sol.send("(pop 1)")
 	} else {
 		w.sol.reset()
 	}
 	w.sol.send("(push 1)")
+	w.sol.depth = 0
+	w.sol.transcript = w.sol.transcript[:0]
+	w.sol.record = true
 	w.pathOpen = true
 }
 
